@@ -10,9 +10,10 @@ META = {
         "13.d a lunar month lists exactly the days 1..day count of its own (year, month-with-leap), in order (engine B; listing loop unrolled, bound proved)",
         "13.e a lunar day lists 13 slots of itself: 00:00, then 01:00, 03:00 ... 23:00; 13.f a sexagenary day lists 12 double-hours, the k-th starting 7200 k seconds after 23:00 of the previous civil day",
         "13.g a sexagenary month lists the days from its Jie day to the day before the next Jie day, in order (engine B; loop unrolled 35 times, bound proved)",
+        "13.h a sexagenary year lists its first month and the 11 months after it (stepping per 11.g)",
         "day-of-year and year length agree with the lists: C01 (01.h)",
     ],
-    "outside": ["that the listed lunar days / hours are themselves accepted by their constructors (02.b, 09.b decide acceptance)", "sexagenary year -> months"],
+    "outside": ["that the listed lunar days / hours are themselves accepted by their constructors (02.b, 09.b decide acceptance)"],
     "assumptions": [
         "13.b: <SolarDay as Tyme>::next replaced by the reference calendar (from the 1st of a month, n < month length steps land on the (n+1)-th existing date: lemma 13.L by induction; otherwise n successor steps), which 01.c/01.d/01.g prove equal to the real function",
         "13.c: ENV-A (calc_shuo/calc_qi arbitrary), ENV-L (leap table symbolic on a 3-year window), LunarMonth::from_ym = LunarMonth::new without the memo",
@@ -39,7 +40,7 @@ def engine_b(tier, seed, scr):
     eng, err = engine(scr, "13.d/B/lunar-month-days", "13.d")
     if eng is None:
         return err
-    return [lunar.k_lunar_month_days(eng), lists.k_lunar_day_hours(eng), lists.k_sixty_day_hours(eng), lists.k_sixty_month_days(eng)]
+    return [lunar.k_lunar_month_days(eng), lists.k_lunar_day_hours(eng), lists.k_sixty_day_hours(eng), lists.k_sixty_month_days(eng), lists.k_sixty_year_months(eng)]
 
 def fallback_candidates(j):
     if j.body.endswith("c13b_days"):
